@@ -454,7 +454,9 @@ prop('C20',
      level_text='Kani harnesses over the REAL frost-core code monomorphised at toy ciphersuites: for every secret-bearing type (SigningKey, SigningShare, Nonce, SecretShare, KeyPackage, '
                 'SigningNonces, dkg round1/round2 SecretPackage, dkg round2 Package) zeroize() leaves every secret scalar equal to zero and drop_in_place leaves zeros in the slot the value '
                 'occupied (inline storage; ManuallyDrop/forgotten negative controls must FAIL), for ALL values of the toy scalar type; the manual Debug impls are checked not to format the secret. '
-                'Complete harnesses (no loops / width-bounded) cover the full toy domain; harnesses with Vec fields are bounded to the stated lengths.',
+                'Complete harnesses (no loops / width-bounded) cover the full toy domain; harnesses with Vec fields are bounded to the stated lengths. In addition the concrete '
+                'scenarios on the six REAL suites run on every check (sampled): Debug output scanned for every encoding of the secret scalars, zeroize() leaves zero, the drop path '
+                'inspected in place and through a global-allocator hook that scans every freed block (the heap buffer of the DKG coefficients, which CBMC cannot inspect after free).',
      level_note='This is model checking of a monomorphic instance, not a proof for all ciphersuites: the zeroize code is generic and does not branch on the suite, but that is an argument, not a '
                 'theorem. Heap buffers freed by Vec (coefficients of dkg::round1::SecretPackage) are checked through the zeroize-before-free glue running, not by inspecting freed memory (CBMC has no '
                 'model of freed storage); the concrete replay search (rt/ C20, sampled) inspects the real allocator blocks. Copies made by the compiler (moves, spills) are outside any source-level check.',
